@@ -61,6 +61,41 @@ CHECKS = {
         text="Generated trivia sequences between every token pair; parse_source(variant) must equal parse_source(base) and evaluations must agree. Exploration only.",
         note="Trivia never goes inside the two-word tokens; comment bodies avoid */ and /* (documentation ambiguous on nesting).",
         ref="4.8"),
+    "C01": dict(
+        technique="property-based testing: generated operation histories (new / recompile / call over several evaluator instances) plus differential execution in child interpreters with varied PYTHONHASHSEED / locale / cwd; oracle = one result per (source, inputs), ever",
+        text="Generated histories and cross-process batches; every observation of the same (source, inputs) pair anywhere must be identical in value and type. Exploration only; only CPython 3.12 on this platform is reachable.",
+        note="No reference scheme is used (sameness only). Child interpreters are fresh /venv/bin/python processes importing the same working tree.",
+        ref="4.1"),
+    "C04": dict(
+        technique="property-based testing with statistical oracles: chi-square goodness-of-fit and contingency tests (alpha 1e-9) over generated id families x offsets x salts x weight vectors",
+        text="2e4 (quick) / 1e5 (thorough) distinct realistic ids per case through the compiled DSL; frequencies must fit the weights and assignments under two salts must be independent. Exploration only; deviations below ~1/sqrt(N) are invisible.",
+        note="Trusts the pure-Python chi-square survival function (self-tested against frozen scipy values and closed forms).",
+        ref="4.4"),
+    "C05": dict(
+        technique="property-based testing: literal-content generator placed in every literal position; reference interpreter with exact Python values, type-identity check, scheme-free salt metamorphics",
+        text="Generated and catalogued literal contents as group definition, predicate operand (both sides), tuple member (plain / one-element / nested) and salt, evaluated on inputs equal to and minimally different from the literal. Exploration only.",
+        note="Trusts the reference interpreter; literals overflowing a double or beyond CPython's int digit limit are outside the bound.",
+        ref="4.5"),
+    "C11": dict(
+        technique="model-based property testing: generated operation sequences (new / recompile valid|same|invalid / call) over several evaluators against the model 'fresh evaluator of the last accepted text', invariant checked after every step",
+        text="Histories up to 50 steps over 4 evaluators and 16 texts; invalid texts must raise every time and change nothing; every evaluator is compared with its model after every step. Exploration only.",
+        note="All valid texts declare a splitter so results are deterministic; the invalid texts are confirmed invalid by the independent recogniser.",
+        ref="4.11"),
+    "C13": dict(
+        technique="property-based testing: adversarial string / salt substitution; masked-constant Python-AST equality with the harmless twin and a planted sentinel call counter",
+        text="Generated programs with adversarial literals in every string position; the generated code (4 variants) must have the same structure as the harmless twin's and a sentinel in builtins must never be called. Exploration only.",
+        note="Both sides of the AST comparison come from the current generator; trusts ast.parse.",
+        ref="4.13"),
+    "C14": dict(
+        technique="property-based differential testing: exec of generate_code() text (both layouts) vs ExperimentEvaluator on generated programs and inputs",
+        text="The generated module text is executed stand-alone and its function compared with the evaluator on every input (value, type, exception class). Exploration only.",
+        note="random is seeded identically on both sides for splitter-less programs.",
+        ref="4.14"),
+    "C17": dict(
+        technique="schedule fuzzing: harness-owned deterministic line-level thread schedules (generated, replayable, shrinkable) plus exhaustive single-preemption sweeps; thorough tier adds pre-emptive stress at 1 microsecond switch interval",
+        text="Operations x schedules are generated by Hypothesis and executed under a sys.settrace-enforced scheduler; results are compared with the sequential reference. Exploration only: line-granular switches; finer races only via the probabilistic pre-emptive tier.",
+        note="Switches inside C extensions and between bytecodes of one line are not reachable by the owned scheduler (stated limit).",
+        ref="4.17"),
 }
 
 NOT_YET = "check not built yet (work in progress; see DESIGN.md for the planned generator and oracle)"
